@@ -7,6 +7,10 @@ targets a current input or output of that node, every node configuration of a no
 graph refers (by identity) to a configuration registered on that model, axes are in range for a
 known rank and not repeated after normalisation, `num_shards >= 1`, stages `>= 0`, device indices
 inside the configuration, one record per configuration and one spec per (configuration, value).
+
+Round trips are taken of models whose names are unique along every scope chain (`NamesChain`); `C19_step_any` /
+`C19_history_any` cover every IR version; `C19_inline_pass` / `C19_inline_pass_axes` are about the complete
+`InlinePass` (`Model/DeviceInl.lean`), after which only the weaker invariant `WeakOK` holds.
 -/
 import IrVerif.Lemmas.DeviceNames
 import IrVerif.Lemmas.DeviceRTLegacy
